@@ -20,3 +20,6 @@ run rw09_anomaly_intervals_comprehension C09
 run rw10_capa_set_difference C03
 run rw11_sbs_threshold_reordered C15 C07
 run rw12_cuts_loop C13
+run rw13_capa_nonstrict_pruning C03 C04
+run rw14_capa_no_pruning C03 C04
+run rw15_capa_last_argmax C03 C04
